@@ -227,6 +227,19 @@ def generate(comp, repo, outdir):
                 names[p] = t.get("rename", {}).get(p, p.replace("::", "_").replace(".", "_").replace("->", "_"))
             for a, b in t.get("alias", {}).items():
                 names[a] = b
+            if t.get("locals") and "func" in t:
+                # opt-in: initialised locals of the function (`auto x = e;`, `uintN_t x = e;`) become aliases for
+                # their initialiser (auto / signed: no wrap; uintN_t: mod 2^N), so that a rewrite which introduces a
+                # local changes the generated definition instead of breaking the target
+                body = function_body(source(t["file"]), t["func"], t.get("func_nth", 0))
+                for lm in re.finditer(r"(?:^|[;{}])\s*(?:const\s+)?(auto|u?int\d+_t|size_t|int|unsigned|bool)\s+(\w+)\s*=\s*([^;]+);", body):
+                    lty, lname, lexpr = lm.group(1), lm.group(2), lm.group(3)
+                    lenv = cexpr.Env(names=names, sizes=sizes, funcs=funcs, aligns=aligns)
+                    last = cexpr.parse(lexpr)
+                    lterm = cexpr.as_int(last, lenv)
+                    if lty in cexpr.UNSIGNED_BITS:
+                        lterm = "(Z.modulo %s (2 ^ %d))" % (lterm, cexpr.UNSIGNED_BITS[lty])
+                    names[lname] = lterm
             env = cexpr.Env(names=names, sizes=sizes, funcs=funcs, aligns=aligns)
             ast = cexpr.parse(text)
             as_bool = t.get("type") == "bool" or (t.get("type") is None and cexpr.is_bool(ast))
